@@ -121,9 +121,7 @@ pub fn serde_case(fl: &str, id: &str, g: &GraphSpec) -> Vec<String> {
     }
     for fmt in ["json", "cbor"] {
         l.push(format!("g.ser 0 {fmt}"));
-        if fmt == "json" {
-            l.push("g.serraw 0 json".into());
-        }
+        l.push(format!("g.serraw 0 {fmt}"));
         l.push(format!("g.roundtrip 0 {fmt}"));
         l.push("dump".into());
         l.push("g.iter 0".into());
